@@ -14,6 +14,7 @@ import PyOak.Handle.LegacyC20
 import PyOak.Handle.Visitor
 import PyOak.Handle.Accessors
 import PyOak.Handle.Pattern
+import PyOak.Handle.Legacy
 open PyOak PyOak.Sexp
 
 def dispatch (s : Sexp) : Sexp :=
@@ -38,6 +39,7 @@ def dispatch (s : Sexp) : Sexp :=
       else if cmd == "dispatch" then handleDispatch args
       else if cmd.startsWith "acc-" then handleAccessors cmd args
       else if cmd == "pmatch" || cmd == "pmulti" || cmd == "pcompile" then PM.handlePattern cmd args
+      else if cmd == "legacy" then handleLegacy args
       else none
     match r with
     | some x => x
